@@ -375,6 +375,10 @@ def _check(case, rec, t):
                         and not m_["k"][0].isdigit()
                         for m_ in before["obs_md"])):
                 infmt = "tsv"
+            if not np.isfinite(D).all():
+                # a history may overflow to inf; the text formats' domains
+                # (C02, C03) are finite values
+                infmt = "hdf5"
             rec.cls("input:" + infmt)
             if infmt == "hdf5":
                 with h5py.File(p, "w") as f:
